@@ -74,7 +74,7 @@ def parse_vspec(path):
             # optional numeric arg
             mm = re.match(r"^(\d+|\*|\?)\s*(.*)$", rest)
             if mm and kind in ("loop", "inv", "invxb", "loopensures", "loopdec", "body-start", "body-end",
-                               "before", "after", "replace", "block-end", "inherit", "closure-spec", "pre-loop", "rawloop"):
+                               "before", "after", "replace", "block-end", "inherit", "closure-spec", "pre-loop", "post-loop", "rawloop"):
                 arg = 0 if mm.group(1) == "*" else (-1 if mm.group(1) == "?" else int(mm.group(1)))
                 rest = mm.group(2).strip()
             mt = re.match(r"^\[([^\]]*)\]\s*(.*)$", rest)
@@ -351,7 +351,7 @@ def weave_function(src_fn, spec, path, W, opts, meta):
                     spec.clauses.append(Clause("inv", c.arg, list(c2.tags), "inherited-%d-%s" % (src_loop, c2.name), c2.body, c2.src))
         loop_ids = sorted(set(c.arg for c in spec.clauses
                               if c.kind in ("loop", "inv", "invxb", "loopensures", "loopdec", "body-start",
-                                            "body-end", "pre-loop")))
+                                            "body-end", "pre-loop", "post-loop")))
         for n in loop_ids:
             if n < 1 or n > len(loops):
                 raise ExtractError("%s: lost loop #%d (function has %d loops)" % (path, n, len(loops)))
@@ -360,6 +360,9 @@ def weave_function(src_fn, spec, path, W, opts, meta):
             # `--- pre-loop N`: ghost text right before loop N (placed by ordinal, not by the text of the header)
             for hn, c in enumerate([c for c in spec.of("pre-loop") if c.arg == n], 1):
                 add(kw, "\n" + c.body + "\n", ob("hint", c, {"name": "pre-loop%d#%d[%s]" % (n, hn, ",".join(c.tags))}) if c.tags else None)
+            # `--- post-loop N`: ghost text right after loop N (independent of the text that follows the loop)
+            for hn, c in enumerate([c for c in spec.of("post-loop") if c.arg == n], 1):
+                add(lc + 1, "\n" + c.body + "\n", ob("hint", c, {"name": "post-loop%d#%d[%s]" % (n, hn, ",".join(c.tags))}) if c.tags else None)
             desugared = None
             if label and label[0].name:
                 # `--- loop N it` : label for-loop iterator  `for x in it: EXPR`
